@@ -387,7 +387,8 @@ impl ScionPath {
                 .expiration
                 .map(|ts| ts.seconds)
                 .ok_or("RPC payload missing expiration timestamp")?
-                as u64;
+                .try_into()
+                .map_err(|_| "RPC expiration timestamp is negative")?;
 
             let mtu: u16 = rpc_path
                 .mtu
